@@ -39,12 +39,18 @@ pub struct Cfg {
     pub prefix: Vec<u8>,
     /// max scheduling points per execution
     pub horizon: usize,
+    /// also make the return of every transmission a scheduling point, so that the user-space code
+    /// that follows a send can be ordered after what the send woke up (needed where threads also
+    /// communicate through user-space state: router, async routing thread)
+    #[serde(default)]
+    pub post_points: bool,
 }
 
 pub static ACTIVE: AtomicBool = AtomicBool::new(false);
 static SCHED: AtomicBool = AtomicBool::new(false);
 static TRACE: AtomicBool = AtomicBool::new(false);
 static NOREUSE: AtomicBool = AtomicBool::new(false);
+static POST_POINTS: AtomicBool = AtomicBool::new(false);
 static FAKE_SNDBUF: AtomicUsize = AtomicUsize::new(0);
 static REAL_SNDBUF: AtomicUsize = AtomicUsize::new(0);
 static ENOBUFS_MASK: AtomicU64 = AtomicU64::new(0);
@@ -168,6 +174,7 @@ pub fn activate(cfg: &Cfg) {
     SCHED.store(cfg.sched, Ordering::SeqCst);
     TRACE.store(cfg.trace, Ordering::SeqCst);
     NOREUSE.store(cfg.noreuse, Ordering::SeqCst);
+    POST_POINTS.store(cfg.post_points, Ordering::SeqCst);
     FAKE_SNDBUF.store(cfg.fake_sndbuf.unwrap_or(0), Ordering::SeqCst);
     REAL_SNDBUF.store(cfg.real_sndbuf.unwrap_or(0), Ordering::SeqCst);
     ENOBUFS_MASK.store(cfg.enobufs_mask, Ordering::SeqCst);
@@ -623,6 +630,10 @@ pub unsafe extern "C" fn sendmsg(fd: c_int, msg: *const msghdr, flags: c_int) ->
             break;
         }
         sched::step_done(op, r as i64);
+        if POST_POINTS.load(Ordering::Relaxed) {
+            sched::point(Op::After);
+            sched::step_done(Op::After, 0);
+        }
         r
     } else {
         sc3(libc::SYS_sendmsg, fd as usize, msg as usize, flags as usize)
@@ -661,6 +672,10 @@ pub unsafe extern "C" fn send(fd: c_int, buf: *const c_void, len: size_t, flags:
             break;
         }
         sched::step_done(op, r as i64);
+        if POST_POINTS.load(Ordering::Relaxed) {
+            sched::point(Op::After);
+            sched::step_done(Op::After, 0);
+        }
         r
     } else {
         sc6(libc::SYS_sendto, fd as usize, buf as usize, len, flags as usize, 0, 0)
